@@ -6,12 +6,14 @@ import (
 	"os"
 	"path/filepath"
 	"reflect"
+	"sort"
 	"strings"
 	"sync/atomic"
 	"time"
 
 	"github.com/goreleaser/nfpm/v2"
 
+	"verifharness/internal/dec"
 	"verifharness/internal/ev"
 	"verifharness/internal/gen"
 	"verifharness/internal/rng"
@@ -486,6 +488,7 @@ func c11(run *ev.Run, tier string) {
 	c11OneFormatFails(run, &ops, &compared)
 	c11OtherPlatform(run, &ops, &compared)
 	c11NameThenPackageOfInvalidSettings(run, &ops)
+	c11MatchSetHistory(run, &ops, &compared)
 	run.Set("sequences_executed", nseq)
 	run.Set("operations_executed", ops)
 	run.Set("packages_compared_with_fresh_parse", compared)
@@ -697,5 +700,102 @@ func c11NameThenPackageOfInvalidSettings(run *ev.Run, ops *int64) {
 				run.Violate("C11/"+f+"/refused-settings-accepted-after-file-name-request", map[string]any{"name": name, "file_name": name1, "direct_package_error": direct.Err.Error()})
 			}
 		}
+	}
+}
+
+// c11MatchSetHistory: a history of three steps in one process - an operation that
+// reads the sources behind a glob and a directory source (validate, or a build),
+// then the set of files there changes, then the same parsed configuration is
+// packaged. What is shipped is what is on disk at the time of the build: the
+// file system is the reference here, and (through the nfpm binary) a fresh
+// process that has never seen the earlier state.
+func c11MatchSetHistory(run *ev.Run, ops, compared *int64) {
+	bin := nfpmBin(run)
+	for _, first := range []string{"validate", "package"} {
+		dir := newWorkDir("c11m")
+		src := filepath.Join(dir, "src")
+		_ = os.MkdirAll(src, 0o755)
+		for _, n := range []string{"a.txt", "b.txt"} {
+			_ = os.WriteFile(filepath.Join(src, n), []byte(n+"\n"), 0o644)
+			_ = os.Chtimes(filepath.Join(src, n), time.Unix(1400000000, 0), time.Unix(1400000000, 0))
+		}
+		s := &gen.Spec{Name: "matchset", Arch: "amd64", Version: "1.0.0", Maintainer: "M <m@example.com>", Description: "d", MTime: 1400000000}
+		s.RPM.BuildHost = "verif-host"
+		s.Contents = []*gen.Content{{Src: src + "/*.txt", Dst: "/opt/globbed"}, {Src: src, Dst: "/opt/copied"}}
+		y := s.YAML()
+		cfgp := filepath.Join(dir, "nfpm.yaml")
+		_ = os.WriteFile(cfgp, []byte(y), 0o644)
+		cfg, err := parseYAML(y, nil)
+		if err != nil {
+			run.Violate("C11/match-set-history/parse-error", map[string]any{"error": err.Error()})
+			removeWorkDir(dir)
+			continue
+		}
+		if first == "validate" {
+			_ = cfg.Validate()
+			*ops++
+		} else {
+			for _, f := range formats {
+				if info, err := infoFor(&cfg, f); err == nil {
+					_ = packageInfo(f, info)
+					*ops++
+				}
+			}
+		}
+		_ = os.WriteFile(filepath.Join(src, "c.txt"), []byte("c.txt\n"), 0o644)
+		_ = os.Rename(filepath.Join(src, "b.txt"), filepath.Join(src, "b2.txt"))
+		for _, f := range formats {
+			run.Case("match-set-changes-between-operations|first="+first+"|"+f, true)
+			info, err := infoFor(&cfg, f)
+			if err != nil {
+				run.Violate("C11/"+f+"/match-set-history/settings-error", map[string]any{"first": first, "error": err.Error()})
+				continue
+			}
+			res := packageInfo(f, info)
+			*ops++
+			if res.Err != nil || res.Panic != "" {
+				run.Violate("C11/"+f+"/build-depends-on-earlier-operations/match-set-changed", map[string]any{"first": first, "error": fmt.Sprint(res.Err, ev.Short(res.Panic, 200))})
+				continue
+			}
+			p := dec.Decode(f, res.Bytes, false)
+			var wrong []string
+			for _, d := range []string{"/opt/globbed/", "/opt/copied/"} {
+				for n, want := range map[string]bool{"a.txt": true, "b.txt": false, "b2.txt": true, "c.txt": true} {
+					if (p.Find(d+n) != nil) != want {
+						wrong = append(wrong, fmt.Sprintf("%s%s shipped=%v on-disk=%v", d, n, !want, want))
+					}
+				}
+			}
+			*compared++
+			if len(p.Errs) > 0 || len(wrong) > 0 {
+				sort.Strings(wrong)
+				run.Violate("C11/"+f+"/build-depends-on-earlier-operations/match-set-changed", map[string]any{"first": first, "differences": wrong, "decode_errors": p.Errs})
+				continue
+			}
+			if bin != "" {
+				target := filepath.Join(dir, "fresh-process."+f)
+				so, se, code, err := runCmd(nil, dir, []string{"PATH=" + os.Getenv("PATH"), "HOME=" + dir}, bin, "package", "-f", cfgp, "-p", f, "-t", target)
+				if err != nil || code != 0 {
+					run.Violate("C11/"+f+"/match-set-history/cli-build-failed", map[string]any{"output": ev.Short(string(so)+string(se), 300)})
+					continue
+				}
+				fresh, _ := os.ReadFile(target)
+				*compared++
+				if !bytes.Equal(fresh, res.Bytes) {
+					run.Violate("C11/"+f+"/bytes-differ-from-fresh-process/match-set-changed", map[string]any{"first": first, "len": len(res.Bytes), "len_fresh_process": len(fresh)})
+				}
+			}
+		}
+		removeWorkDir(dir)
+	}
+	// the command line tool run again over the package an earlier run left at the target
+	if bin != "" {
+		cliRebuildSmaller(run, bin, "C11", func(f, how string, atTarget, fresh []byte) {
+			*ops += 3
+			*compared++
+			if !bytes.Equal(atTarget, fresh) {
+				run.Violate("C11/"+f+"/bytes-differ-from-fresh-target/target-held-an-older-larger-package", map[string]any{"how": how, "len": len(atTarget), "len_fresh_target": len(fresh)})
+			}
+		})
 	}
 }
